@@ -21,7 +21,7 @@ HARNESS_FILE = T("inpkg", "store", "gc_harness_test.go")
 GC_WORK = os.path.join(core.WORK, "gc")
 
 C05_MONITORS = {"gc-removed-retained", "gc-removed-recent", "tagged-image-incomplete-after-gc", "gc-retained-unreachable"}
-C06_MONITORS = {"gc-kept-garbage", "index-entry-without-blob", "second-pass-changes", "empty-repo-not-removed",
+C06_MONITORS = {"gc-kept-garbage", "index-entry-without-blob", "child-record-without-blob", "second-pass-changes", "empty-repo-not-removed",
                 "repo-half-removed", "pass-starved"}
 
 EXTRA_C05 = []   # callables (o, tier) appended by other modules
@@ -144,6 +144,8 @@ WITNESSES = {
         "NEW 0 0 1 1 1", "B 3 1 oth", "GC", "M 3 1 0 1 0", "GC"]),
     "F5b-foreign-file-keeps-directory": (["gcdir"], {"C05", "C06"}, [
         "NEW 1 1 1 0 1", "X root", "GC", "B 4 0 raw", "M 4 1 0 1 0", "GC", "B 2 0 raw", "GC"]),
+    "F41-child-record-without-content": (["gc", "gcdir"], {"C06"}, [
+        "NEW 0 0 1 0 0", "B 1 0 oth", "B 6 0 img 1", "M 6 1 0 1 0", "K 5 1", "GC", "GC"]),
     "F7-sha384-directory": (["gcdir"], {"C06"}, [
         "NEW 0 0 1 0 1", "B 8 0 raw", "GC", "GC"]),
     "F6-pass-stops-at-failing-repository": (["gcpassdir"], {"C06"}, [
